@@ -1,4 +1,5 @@
 """C03 - the front end is total: every input gets diagnostics, never a crash or a hang."""
+import hashlib
 import os
 import re
 import vlib
@@ -232,7 +233,12 @@ def front_stream(ctx):
             if kind == "timeout-unretried":
                 continue      # same site already confirmed 3 times in this run; counted, not reported again
             key = "front:%s:%s:%s" % (stage, kind, site)
-            if site.endswith("~rec"):
+            nonterm = kind == "timeout" or site.endswith("~rec") or (kind == "fatal" and ("stack overflow" in msg or "stack exceeds" in msg))
+            if nonterm and stage == "check":
+                # non-termination of the checker: the frame in which the watchdog or Go's stack overflow catches it
+                # differs from run to run, so the finding is identified by the input itself (the site stays in `what`)
+                key = "front:check:nonterm:input-" + hashlib.sha1(b).hexdigest()[:12]
+            elif site.endswith("~rec"):
                 # runaway recursion: whether it ends in the CPU watchdog or in Go's stack overflow, and in which
                 # frame, depends on timing; the class is named by the recursion cycle (harness: recursionSite)
                 key = "front:%s:recursion:%s" % (stage, site[:-4])
